@@ -265,7 +265,8 @@ def main(pid, tier, seed):
     # ---- flags come from the save file on --load (real command line) ----
     rcopy = core.repo_copy('cli')
     jobs = []
-    cli_sets = rdirs[:6] if tier == 'quick' else rdirs[:6] + rdirs[6:40]
+    heavy = [x for x in rdirs if str(x[1].get('kind', '')).startswith('m_heavy')][:3]     # p / (1 - P(M)) rounding above 1.0
+    cli_sets = (rdirs[:6] + [x for x in heavy if x not in rdirs[:6]]) if tier == 'quick' else rdirs[:6] + rdirs[6:40]
     for k, (d, desc) in enumerate(cli_sets):
         name = 'v%d' % k
         os.symlink(d, os.path.join(rcopy, 'Rules', name))
